@@ -19,7 +19,7 @@ import (
 )
 
 func init() {
-	report.Register("C18", report.Check{Level: "model_checking", QuickBudget: 100 * time.Second, ThoroughBudget: 20 * time.Minute, Run: run})
+	report.Register("C18", report.Check{Level: "model_checking", QuickBudget: 240 * time.Second, ThoroughBudget: 20 * time.Minute, Run: run})
 	explore.Register("C18.counter-conc", func(string) explore.Harness { return concCounter })
 	explore.Register("C18.store-conc", func(string) explore.Harness { return concStore })
 	explore.Register("C18.counter-one", func(p string) explore.Harness {
